@@ -178,6 +178,9 @@ def main():
     bounded_symbolic = {}
     dep_checked = {}
     replay_dir = os.path.join(HERE, "replays", prop)
+    if os.path.isdir(replay_dir) and repo == "/repo":
+        for f_ in os.listdir(replay_dir):
+            os.unlink(os.path.join(replay_dir, f_))
 
     for r in sorted(results, key=lambda x: x.get("contract", "")):
         if not r.get("ok"):
